@@ -18,7 +18,7 @@ P("C12",
              "queued with time not beyond it, and no tick lies strictly in between), c12_no_panic; c12_tick_now_where characterises "
              "TickNow including the same-instant drop after the tick was handled (C09's finding, witness included; not a C12 clause); "
              "regression lemmas refute the mutations >= -> > and NextTick -> ThisTick and show the silent stop at the 2^64 wrap. "
-             "Tie: scripted multi-component runs (1-4 components, mixed and non-dividing periods, primary/secondary, self calls, "
+             "Tie: scripted multi-component runs (1-4 components, mixed and non-dividing periods, primary/secondary, self calls, optionally real messaging ports and a real noc/directconnection whose own TickScheduler is projected and replayed too, "
              "duplicate same-instant requests, overflow panics) are projected per component and replayed step by step by the model "
              "(every Schedule call, every dispatched tick time, legality of every step, empty queue at completion); holds_on "
              "re-evaluates the four clauses on the observed history without the model.",
